@@ -326,7 +326,7 @@ pub mod vx_ids {
         @sig
             requires canon(self@),
             ensures r == covers(self@, clock as int),
-        @before 1 `idx > 0 &&`
+        @before 1 `stmt:expr idx`
             proof {
                 let s = self@;
                 let c = clock as int;
@@ -368,13 +368,13 @@ pub mod vx_ids {
                 forall|i: int| 0 <= i < left ==> (#[trigger] self@[i]).0.end <= clock,
                 left < self@.len() ==> clock < self@[left as int].0.end,
             decreases right + 1 - left,
-        @before 1 `left = mid + 1;`
+        @before 1 `stmt:assign left`
             proof {
                 assert forall|i: int| 0 <= i < mid + 1 implies (#[trigger] self@[i]).0.end <= clock by {
                     if i < mid { assert(self@[i].0.end <= self@[mid as int].0.start); }
                 }
             }
-        @before 1 `right = mid - 1;`
+        @before 1 `stmt:assign right`
             proof {
                 assert forall|i: int| mid - 1 < i < self@.len() implies clock < (#[trigger] self@[i]).0.start by {
                     if mid < i { assert(self@[mid as int].0.end <= self@[i].0.start); }
@@ -391,7 +391,7 @@ pub mod vx_ids {
                 forall|c: int| covers(final(self)@, c) ==> val_at(final(self)@, c) == val_at(old(self)@, c),
         @start
             let ghost s0 = self@;
-        @before 2 `return;`
+        @before 2 `stmt:return`
             proof {
                 // every entry ends at or before range.start: nothing to remove
                 assert forall|c: int| covers(s0, c) implies !inr(range, c) by {
@@ -399,18 +399,18 @@ pub mod vx_ids {
                     assert(inr(s0[k].0, c));
                 }
             }
-        @after 1 `if i >= self.0.len() {`
+        @after 2 `stmt:if`
             proof {
                 // entries before i end at or before range.start; entry i ends after it
                 assert(forall|k: int| 0 <= k < i ==> (#[trigger] s0[k]).0.end <= range.start);
                 assert(s0[i as int].0.end > range.start);
             }
             let ghost i0 = i as int;
-        @before 3 `return;`
+        @before 3 `stmt:return`
             proof {
                 lemma_split(s0, i0, range.start, range.end, self@);
             }
-        @after 1 `if self.0[i].0.start < range.start {`
+        @after 4 `stmt:if`
             let ghost s1 = self@;
             proof {
                 if s0[i0].0.start < range.start {
@@ -436,14 +436,14 @@ pub mod vx_ids {
                 i <= j <= s1.len(),
                 forall|k: int| i <= k < j ==> (#[trigger] s1[k]).0.end <= range.end,
             decreases self.0.len() - j,
-        @after 1 `while j < self.0.len() && self.0[j].0.end <= range.end`
+        @after 1 `stmt:while`
             proof {
                 // entries from j on end after range.end
                 assert forall|k: int| j <= k < s1.len() implies range.end < (#[trigger] s1[k]).0.end by {
                     if k > j { assert(s1[j as int].0.end <= s1[k].0.start); }
                 }
             }
-        @after 1 `if j < self.0.len() && self.0[j].0.start < range.end {`
+        @after 5 `stmt:if`
             let ghost s2 = self@;
             proof {
                 if j < s1.len() && s1[j as int].0.start < range.end {
